@@ -235,12 +235,46 @@ def step_harness():
 
 
 # ---------------------------------------------------------------- step 5
-def run_model(cases_text):
+def _run_model_one(text):
     rc, out = sh("ulimit -s unlimited 2>/dev/null; exec " + os.path.join(BUILD, "model", "driver"),
-                 stdin=cases_text.encode(), timeout=2400)
+                 stdin=text.encode(), timeout=3000)
     if rc != 0:
         raise Broken("model driver crashed", out[-400:])
     return out.split("\n")
+
+
+def run_model(cases_text, jobs=None):
+    """Runs the extracted model on the cases.  The driver's only state is the current mapping (M) or
+    buffer (X), so the case list is cut at M / X lines into contiguous chunks that are answered by
+    parallel driver processes; the answers are concatenated in order (one answer line per case line)."""
+    lines = cases_text.split("\n")
+    if lines and lines[-1] == "":
+        lines.pop()
+    jobs = jobs or int(os.environ.get("VERIF_MODEL_JOBS", "12"))
+    total = sum(len(l) + 1 for l in lines)
+    if jobs <= 1 or total < 200_000:
+        return _run_model_one(cases_text)
+    target = total // (jobs * 4) + 1
+    chunks, cur, size = [], [], 0
+    for l in lines:
+        if (l.startswith("M ") or l.startswith("X ")) and size >= target:
+            chunks.append(cur)
+            cur, size = [], 0
+        cur.append(l)
+        size += len(l) + 1
+    if cur:
+        chunks.append(cur)
+    from concurrent.futures import ThreadPoolExecutor
+    with ThreadPoolExecutor(max_workers=jobs) as ex:
+        outs = list(ex.map(lambda c: _run_model_one("\n".join(c) + "\n"), chunks))
+    res = []
+    for c, o in zip(chunks, outs):
+        if o and o[-1] == "":
+            o = o[:-1]
+        if len(o) != len(c):
+            raise Broken("model driver answered %d lines for %d cases" % (len(o), len(c)), "")
+        res += o
+    return res + [""]
 
 
 def run_impl(harness, cases_text, mode="run"):
